@@ -180,6 +180,45 @@ def lpc_task(m, N):
     return Task("lpc.real.N%d.p%d" % (m, N), run, kind="bounded", prerun=True, timeout=120, functions=["spectrum.lpc.lpc", "spectrum.tools.nextpow2"])
 
 
+def ls_task(N, p, cx):
+    """the statement's least-squares clause, directly: with C = corrmtx(x, p, 'autocorrelation') built by the real code, the exact
+    least-squares solution of C[:, 1:] a = -C[:, 0] (normal equations, A-LSQ) equals the coefficients the real aryule returns"""
+    def run(tc):
+        names = sum((["x%d_r" % j, "x%d_i" % j] if cx else ["x%d" % j] for j in range(N)), [])
+        dom, I = e3_interp(tc, names)
+        E = E3(tc, dom, "ls_autocorr", {"N": N, "p": p, "complex": cx}, tc.seed)
+        x = [dom.csym("x%d" % j) if cx else dom.sym("x%d" % j) for j in range(N)]
+        mk = lambda: Arr.from_items(list(x), dtype="complex" if cx else "float")
+        yw = E.run(I, lambda I_: I_.call_qual("spectrum.yulewalker.aryule", mk(), p, "biased"))
+        if yw is None:
+            return
+        C = E.run(I, lambda I_: I_.call_qual("spectrum.linalg.corrmtx", mk(), p, "autocorrelation"))
+        if C is None:
+            return
+        rows = int(C.r)
+        E.ok("corrmtx:(N+p) x (p+1)", rows == N + p and int(C.c) == p + 1, "%d x %d" % (rows, int(C.c)))
+        A = [[V.Cx.of(C.at(i, j + 1)) for j in range(p)] for i in range(rows)]
+        b = [-V.Cx.of(C.at(i, 0)) for i in range(rows)]
+        zero = Cx(Fraction(0), Fraction(0))
+        G = [[sum((V.s_conj(A[r][i]) * A[r][j] for r in range(rows)), zero) for j in range(p)] for i in range(p)]
+        h = [sum((V.s_conj(A[r][i]) * b[r] for r in range(rows)), zero) for i in range(p)]
+        # exact elimination (generic path: the Gram matrix is non-singular)
+        for c in range(p):
+            for r in range(c + 1, p):
+                f = G[r][c] / G[c][c]
+                G[r] = [G[r][k] - f * G[c][k] for k in range(p)]
+                h[r] = h[r] - f * h[c]
+        sol = [None] * p
+        for c in reversed(range(p)):
+            acc = h[c]
+            for k in range(c + 1, p):
+                acc = acc - G[c][k] * sol[k]
+            sol[c] = acc / G[c][c]
+        E.eq("least-squares-on-autocorrelation-matrix=Yule-Walker-coefficients", sol, [V.Cx.of(v) for v in yw[0].to_list()])
+    return Task("ls-autocorrelation.%s.N%d.p%d" % ("complex" if cx else "real", N, p), run, kind="bounded", prerun=True, timeout=150,
+                functions=["spectrum.linalg.corrmtx", "spectrum.yulewalker.aryule"])
+
+
 def norm_task():
     """the statement is about the BIASED autocorrelation: a pyule object built without an explicit norm uses it, and whatever
     norm the object holds is the one its __call__ hands to aryule (recording stub; exact domain, tiny concrete sizes)"""
@@ -218,6 +257,10 @@ def norm_task():
 
 def tasks(tier):
     ts = [norm_task()]
+    # real (6, 3) and complex beyond (4, 1) give no result within 150 s: not attempted
+    for (N, p, cx) in ([(4, 1, False), (4, 2, False), (4, 1, True)] if tier == "quick" else
+                       [(4, 1, False), (4, 2, False), (5, 2, False), (4, 1, True)]):
+        ts.append(ls_task(N, p, cx))
     for (m, N) in ([(3, 1), (3, 2), (4, 1), (4, 2)] if tier == "quick" else [(2, 1), (3, 1), (3, 2), (4, 1), (4, 2), (4, 3)]):
         ts.append(lpc_task(m, N))
     sizes = [(4, 1), (5, 2)] if tier == "quick" else [(4, 1), (5, 2), (6, 3)]
